@@ -132,6 +132,13 @@ def c06_generate(seed: int, tier: str) -> dict:
         ops.append({"actor": "W", "do": ["update", list(path), rg, value]})
         a, b = range_bounds(rg)
         dates[path] = sorted(set(dates[path]) | {a} | ({PW.shift(b, 1)} if b else set()))
+    if chance(orr, 0.4):
+        # a copy of the whole tree is taken mid-way (ParameterNode.clone) and both
+        # copies go on being updated: each keeps following its own history
+        k = orr.randrange(len(ops) + 1)
+        for op in ops[k:]:
+            op["side"] = orr.randrange(2)
+        ops.insert(k, {"actor": "W", "do": ["clone"]})
     return {
         "format": 1,
         "property": "C06",
@@ -235,11 +242,20 @@ def c06_run(scn) -> Result:
         if scn["load"] == "dir":
             res.count("fault:listdir_permuted")
         H.add("L", "load", scn["load"], [canon(get_param(root, p)(d)) for p, _ in leaves[:6] for d in dates[:6]])
+        sides = [(root, models)]
         for step, op in enumerate(scn["ops"]):
             if res.violations:
                 break
+            if op["do"][0] == "clone":
+                if len(sides) == 1:
+                    sides.append((root.clone(), copy.deepcopy(models)))
+                    res.count("probe:tree_cloned_mid_way")
+                    H.add("W", "clone", [])
+                continue
             _, path, rg, value = op["do"]
             path = tuple(path)
+            side = op.get("side", 0) % len(sides)
+            root, models = sides[side]
             param = get_param(root, path)
             m = models[path]
             a, b = range_bounds(rg)
@@ -275,8 +291,15 @@ def c06_run(scn) -> Result:
                     break
             if not res.violations:
                 c06_check_all(res, step, root, tree, models, leaves, dates, op["do"])
-            H.add("W", "update", op["do"][1:], [canon(param(d)) for d in dates])
-        res.mark("interleavings", digest([(tuple(o["do"][1]), sorted(o["do"][2])) for o in scn["ops"]]))
+            for other, (oroot, omodels) in enumerate(sides):
+                if other != side and not res.violations:
+                    # the copy that was not updated still follows its own history
+                    n0 = len(res.violations)
+                    c06_check_all(res, step, oroot, tree, omodels, leaves, dates, op["do"])
+                    for v in res.violations[n0:]:
+                        v["what"] = "the copy that was not updated changed"
+            H.add("W", "update", [side, *op["do"][1:]] if len(sides) > 1 else op["do"][1:], [canon(param(d)) for d in dates])
+        res.mark("interleavings", digest([(tuple(o["do"][1]), sorted(o["do"][2]), o.get("side", 0)) if o["do"][0] == "update" else "clone" for o in scn["ops"]]))
         res.count("executions")
         res.events = H.events
         res.digest = H.digest()
@@ -415,6 +438,9 @@ def c07_generate(seed: int, tier: str) -> dict:
         "listdir_seed": st["fs"].randrange(1 << 30),
         "listdir_seed2": st["fs"].randrange(1 << 30),
         "style_seed": st["fs"].randrange(1 << 30),
+        # formulas read through one long-lived simulation per (system, traced?) whose
+        # cached result is deleted before each read - or through a new one each time
+        "long_lived": chance(st["fs"], 0.5),
         "ops": ops,
     }
 
@@ -483,7 +509,7 @@ def asof_child(tree_node, date_text):
     return best[1] if best else before
 
 
-def read_scalar(system, route, path, date, res):
+def read_scalar(system, route, path, date, res, keep=None, sid=None):
     """Returns ('val', x) | ('undef',) | ('exc', name)."""
     try:
         if route.startswith("a"):
@@ -501,12 +527,19 @@ def read_scalar(system, route, path, date, res):
                 node = getattr(node, part)
             return ("val", float(node))
         PW.CUR["path"] = tuple(path)
-        sim = SimulationBuilder().build_default_simulation(system, count=2)
-        sim.trace = route == "d"
+        sim = keep.get((sid, route)) if keep is not None else None
+        if sim is not None and sim.tax_benefit_system is system:
+            sim.delete_arrays("rp")  # so that the formula runs again, in the same simulation
+            res.count("probe:formula_read_in_a_long_lived_simulation")
+        else:
+            sim = SimulationBuilder().build_default_simulation(system, count=2)
+            sim.trace = route == "d"
+            if keep is not None:
+                keep[sid, route] = sim
         out = sim.calculate("rp", date)
         if route == "d":
             res.count("clause:C07.trace")
-            accesses = [p for node in sim.tracer.browse_trace() for p in node.parameters]
+            accesses = list(sim.tracer.trees[-1].parameters)  # rp reads no variable: one node
             vals = [a.value for a in accesses if a.name.lstrip(".") == ".".join(path)]
             if len(vals) != 1 or numpy.float32(vals[0]) != out[0]:
                 return ("trace-mismatch", [str(a.name) for a in accesses], [canon(a.value) for a in accesses], canon(out))
@@ -570,6 +603,7 @@ def run_c07(scn) -> Result:
 
         writes = 0
         reads_after_write = 0
+        kept_sims = {} if scn.get("long_lived") else None
         for step, op in enumerate(scn["ops"]):
             if res.violations:
                 break
@@ -631,7 +665,7 @@ def run_c07(scn) -> Result:
                     want = PW.read_direct(system.parameters, path, date)  # route (b): the tree itself
                 except AttributeError:
                     continue  # the path does not exist in this system's tree
-                got = read_scalar(system, route, path, date, res)
+                got = read_scalar(system, route, path, date, res, keep=kept_sims, sid=sid)
                 res.count("clause:C07.agree")
                 res.count(f"probe:route_{route}")
                 if writes:
